@@ -7,6 +7,7 @@ driven by random storage histories, plus an audit hook that watches for data-fil
 resident value is read."""
 import collections
 import json
+import os
 import sys
 
 from vf import core, domain, env, storeops
@@ -337,8 +338,8 @@ def run_hist(case, out):
         opened = []
 
         def hook(event, args):
-            if event == "open" and isinstance(args[0], str) and args[0].startswith(root):
-                opened.append(args[0])
+            if event == "open" and isinstance(args[0], (str, os.PathLike)) and os.fspath(args[0]).startswith(root):
+                opened.append(os.fspath(args[0]))
 
         _sys.addaudithook(hook)
         model = storeops.Model()
